@@ -277,6 +277,14 @@ theorem gen_sysBoxSet_eq_model (w : World K) (s : Nat) (v : M3 K) (o : V3 K) (sc
 /-- `scale` defaults to `False` (absolute positions unchanged). -/
 theorem gen_box_set_scale_default : DvectSource.boxSetScaleDefault = false := rfl
 
+/-- the part of the argument space the model leaves UNDEFINED (`pbc` with fewer than three entries, arrays whose rows are
+    not three long) is exactly where the source reads without a bounds check: both wrappers carry
+    `@cython.boundscheck(False)` / `@cython.wraparound(False)` and nothing else.  If a check is switched on (those inputs
+    would then raise IndexError instead of reading past the end) this obligation breaks and the refusal has to be modelled. -/
+theorem gen_unchecked_reads :
+    DvectSource.dvectDecorators = ["cython.boundscheck(False)", "cython.wraparound(False)"] ∧
+    DvectSource.dmagDecorators = ["cython.boundscheck(False)", "cython.wraparound(False)"] := ⟨rfl, rfl⟩
+
 theorem gen_getters_live : DvectSource.systemGettersLive = true := rfl
 
 /-- the three modules consist of imports and exactly the translated functions, and `atomman/core/__init__.py` exports these
